@@ -93,13 +93,6 @@ func (c Case) objRegion() (isNil, reparsed bool) {
 	return
 }
 
-func (c Case) instances() int {
-	if c.loops() {
-		return len(c.Data[forList].L)
-	}
-	return 1
-}
-
 func (c Case) showFalsy() bool {
 	for _, a := range c.Attrs {
 		if a.Kind != "show" {
